@@ -72,6 +72,12 @@ def run_pubsub(ctx, relevant, line_oracle=None, sat_share=1):
                         label="pubsub.saturation", line_oracle=line_oracle)
     core.diff_component(ctx, "pubsub", ["gen", "--seed", ctx.seed + 13, "--cases", 300 if quick else 6000, "--len", 60 if quick else 100, "ipc"], cl,
                         label="pubsub.ipc", line_oracle=line_oracle)
+    # slice payloads on a dynamically growing data segment (PowerOfTwo strategy, initial slice length 1, loan lengths that mostly grow):
+    # the same model — the length is not observable in it; publishers are not dropped in this mode (lost-chunk limitation of dynamic segments)
+    core.diff_component(ctx, "pubsub", ["gen", "--seed", ctx.seed + 17, "--cases", 1200 if quick else 20000, "--len", 70 if quick else 120, "slice"], cl,
+                        label="pubsub.slice", line_oracle=line_oracle)
+    core.diff_component(ctx, "pubsub", ["gen", "--seed", ctx.seed + 19, "--cases", 150 if quick else 3000, "--len", 60 if quick else 100, "slice", "ipc"], cl,
+                        label="pubsub.slice-ipc", line_oracle=line_oracle)
 
 
 RULE = ("real Publisher / Subscriber ports of a publish-subscribe service driven through the public API, one call per line: create/drop publisher (max loans 0..3) and subscriber "
@@ -83,6 +89,7 @@ RULE = ("real Publisher / Subscriber ports of a publish-subscribe service driven
         "distinct = distinct output vectors of cases with > 2 ops")
 
 ASSUME = ["every API call is one atomic step of the L1 model: concurrency between ports is covered below this level by the queue / index-set / connection theorems (C03, C09, C13), not here",
-          "fixed-size u64 payload; slice payloads and the dynamic data segment use the same chunk bookkeeping (segment id 0 only is modelled)",
+          "payloads: fixed-size u64, and [u64] slices on a dynamically growing data segment (segment ids are not part of the model: observable results are the same); in slice mode publishers "
+          "are not dropped while their samples are in flight (a vanished publisher's not-yet-mapped segments are lost: documented limitation of dynamic segments, outside the model)",
           "backpressure strategy DiscardData; the blocking strategies spin on the same try_send (retry loop not modelled)",
           "request-response uses the same Sender/Receiver machinery (port/details); it is exercised by the C11 check"]
